@@ -12,7 +12,7 @@
 EXTENDS Auth, TraceBase
 CONSTANT AllowedDev
 VARIABLE pend          \* the Offer line awaiting its Validate
-tvars == <<cfg, cur, acc, pend, l>>
+tvars == <<cfg, phase, cur, acc, pend, l>>
 DevKey == "Dev_MultisigCountsRepeatedSigner"
 \* the case, judged against the payer signers that are really registered
 CaseOf(e) == [e.a[1] EXCEPT !.pcfg = e.pcfg]
@@ -32,23 +32,23 @@ EffectOf(c, o, e, k) ==
   /\ e.vote = (ExecKind(c) = "vote")
   /\ e.cfg2 = (IF c.kind = "signers" THEN (IF c.f = "data" THEN <<100, 100, 100>> ELSE c.ncfg) ELSE k)
 TReset == /\ Ev("reset")
-          /\ cfg' = E.cfg /\ cur' = NoCase /\ acc' = FALSE /\ pend' = <<>>
-TOffer == /\ Ev("Offer") /\ cur = NoCase
+          /\ cfg' = E.cfg /\ phase' = 0 /\ cur' = NoCase /\ acc' = FALSE /\ pend' = <<>>
+TOffer == /\ Ev("Offer") /\ phase = 0
           /\ LET c == CaseOf(E)  k == E.cfg IN
              /\ E.ntx = (IF E.packaged THEN 1 ELSE 0)
              /\ (E.packaged \/ Changed(E, k) => AuthOrDev(k, c))              \* an effect only if authorised
              /\ (Canonical(k, c) /\ Authorized(k, c) /\ E.intake => E.packaged) \* honest transactions are not refused
              /\ (E.packaged => E.intake /\ EffectOf(c, E, E, k))               \* the effect is that of the submitted content
              /\ (~E.packaged => ~Changed(E, k))                               \* a refused transaction changes nothing
-             /\ cur' = c /\ acc' = E.packaged /\ cfg' = k /\ pend' = E
-TValidate == /\ Ev("Validate") /\ cur # NoCase
+             /\ phase' = 1 /\ cur' = c /\ acc' = E.packaged /\ cfg' = k /\ pend' = E
+TValidate == /\ Ev("Validate") /\ phase = 1
              /\ E.mode = (IF acc THEN "honest" ELSE E.mode) /\ E.mode \in {"honest", "forged", "skip"}
              /\ (E.mode = "honest" => acc)
              /\ (E.ok \/ E.stored \/ Changed(E, cfg) => AuthOrDev(cfg, cur))
              /\ (Canonical(cfg, cur) /\ Authorized(cfg, cur) /\ pend.intake /\ E.mode # "skip" => E.ok)
              /\ (E.ok => E.stored /\ EffectOf(cur, pend, E, cfg))
              /\ (~E.ok => ~E.stored /\ ~Changed(E, cfg))
-             /\ cur' = NoCase /\ acc' = FALSE /\ pend' = <<>> /\ UNCHANGED cfg
+             /\ phase' = 0 /\ cur' = NoCase /\ acc' = FALSE /\ pend' = <<>> /\ UNCHANGED cfg
 TraceNext == TReset \/ TOffer \/ TValidate
-TraceSpec == l = 1 /\ cfg = <<>> /\ cur = NoCase /\ acc = FALSE /\ pend = <<>> /\ [][TraceNext]_tvars
+TraceSpec == l = 1 /\ cfg = <<>> /\ phase = 0 /\ cur = NoCase /\ acc = FALSE /\ pend = <<>> /\ [][TraceNext]_tvars
 ====
